@@ -111,27 +111,29 @@ func (c *Ctx) SNBTSuffix() []core.Ob {
 	emits := map[string]emit{}
 	for tv, cc := range ws.cases {
 		var e emit
-		ast.Inspect(cc, func(n ast.Node) bool {
-			switch v := n.(type) {
-			case *ast.BinaryExpr:
-				if v.Op == token.ADD {
-					if bl, ok := v.Y.(*ast.BasicLit); ok && bl.Kind == token.STRING {
-						s, _ := strconv.Unquote(bl.Value)
-						e.suffixes = append(e.suffixes, s)
+		for _, hb := range c.withHelpers(ws.pkg, cc, ws.decl, 2) {
+			ast.Inspect(hb.node, func(n ast.Node) bool {
+				switch v := n.(type) {
+				case *ast.BinaryExpr:
+					if v.Op == token.ADD {
+						if bl, ok := v.Y.(*ast.BasicLit); ok && bl.Kind == token.STRING {
+							s, _ := strconv.Unquote(bl.Value)
+							e.suffixes = append(e.suffixes, s)
+						}
 					}
-				}
-			case *ast.CallExpr:
-				if sel, ok := v.Fun.(*ast.SelectorExpr); ok && sel.Sel.Name == "WriteString" && len(v.Args) == 1 {
-					if bl, ok := v.Args[0].(*ast.BasicLit); ok {
-						s, _ := strconv.Unquote(bl.Value)
-						if strings.HasPrefix(s, "[") && strings.HasSuffix(s, ";") {
-							e.prefix = s
+				case *ast.CallExpr:
+					if sel, ok := v.Fun.(*ast.SelectorExpr); ok && sel.Sel.Name == "WriteString" && len(v.Args) == 1 {
+						if bl, ok := v.Args[0].(*ast.BasicLit); ok {
+							s, _ := strconv.Unquote(bl.Value)
+							if strings.HasPrefix(s, "[") && strings.HasSuffix(s, ";") {
+								e.prefix = s
+							}
 						}
 					}
 				}
-			}
-			return true
-		})
+				return true
+			})
+		}
 		emits[ws.names[tv]] = e
 	}
 	// ---- parser tables
